@@ -4,6 +4,7 @@ Suites (requests are answered by the extracted Coq model, Model/SuiteJson.v, and
 klog.Run, harness/suite_json.go; see there for the /proc/self/cwd path convention):
 
   output    jsonout-run / jsonout-multi   stdout of `klog json [--pretty] FILE...`, byte for byte
+  api       jsonout-api                   json.ToJson called directly, error origin = arbitrary bytes (invalid UTF-8 in `file`)
   terminal  jsonout-terminal              error text of `klog print FILE` (colours off) + `klog json FILE`
   flags     jsonout-cli (oracle only)     `klog json <--sort|filters> FILE` next to `klog json FILE`
 
@@ -96,31 +97,31 @@ def gen_output(tier, rng):
         for pretty in (0, 1):
             p = CWD + "f.klg"; add(req_run(pretty, p, b), paths=[p])
     # conforming documents
-    for d in docs(rng, 1300 if quick else 150000, max_records=5, max_entries=6):
+    for d in docs(rng, 1300 if quick else 100000, max_records=5, max_entries=6):
         if any(abs(e.minutes()) > 10**16 for r in d.records for e in r.entries):
             continue
         p = pick_name(rng)
         add(req_run(rng.random() < 0.4, p, d.render()), asts=[d], paths=[p])
     # faulted documents
     n = 0
-    for d in docs(rng, 700 if quick else 70000, max_records=4, max_entries=5):
+    for d in docs(rng, 700 if quick else 50000, max_records=4, max_entries=5):
         f = specgen.inject_fault(d, rng)
         if f is None: continue
         p = pick_name(rng)
         add(req_run(rng.random() < 0.4, p, f[0]), paths=[p]); n += 1
     # the summaries the property text names
-    for _ in range(500 if quick else 50000):
+    for _ in range(500 if quick else 30000):
         p = pick_name(rng)
         add(req_run(rng.random() < 0.4, p, special_doc(rng)), paths=[p])
     # arbitrary bytes (the C06 stream, incl. the very long lines)
-    stream = byte_stream(tier, rng, 300 if quick else 20000, 150 if quick else 10000, 1 if quick else 2)
+    stream = byte_stream(tier, rng, 300 if quick else 15000, 150 if quick else 8000, 1 if quick else 2)
     for b in stream:
         if quick and len(b) > 100000 and rng.random() < 0.5:
             continue
         p = CWD + "f.klg"
         add(req_run(rng.random() < 0.3, p, b), paths=[p])
     # several files in one command line
-    for _ in range(150 if quick else 10000):
+    for _ in range(150 if quick else 8000):
         k = rng.choice([2, 2, 3])
         parts, asts, paths = [], [], []
         all_ok = True
@@ -379,6 +380,46 @@ def oracle_output(req, out):
         return check_against_ast(env["records"], asts)
     return None
 
+# ------------------------------------------------------------------ ToJson with arbitrary origins
+
+def go_sanitize(b):
+    """string([]rune(s)) in Go: every byte that is not part of a valid UTF-8 sequence becomes U+FFFD (one per byte)"""
+    out = []; i = 0
+    while i < len(b):
+        c = b[i]
+        need = 1 if c < 0x80 else 2 if 0xc2 <= c <= 0xdf else 3 if 0xe0 <= c <= 0xef else 4 if 0xf0 <= c <= 0xf4 else 0
+        ch = None
+        if need and i + need <= len(b):
+            try: ch = b[i:i + need].decode("utf-8")
+            except UnicodeDecodeError: ch = None
+        if ch is None: out.append("\ufffd"); i += 1
+        else: out.append(ch); i += need
+    return "".join(out)
+
+ORIGINS = [b"", b"f.klg", b"/a/b/c/file.klg", b"\xff", b"f\xff.klg", b"\xc3", b"\xe2\x80", b"\xe2\x80\xa8", b"\xed\xa0\x80", b"\xf4\x90\x80\x80", b"\xc0\xaf",
+           b"a\x80b\xbfc", b'q"\\\x00\x1f\x7f<>&', "ü読😀".encode(), b"\xf0\x9f\x98", b"\xef\xbf\xbd\xff\xef\xbf\xbd", b"\n\r\t", b"\xfe\xff"]
+
+def gen_api(tier, rng):
+    quick = tier == "quick"
+    out = []
+    def add(o, b, asts=None):
+        req = "jsonout-api %d %s %s" % (rng.random() < 0.4, hx(o), hx(b))
+        if asts is not None: AST[req] = asts
+        PATHS[req] = [go_sanitize(o)]
+        out.append(req)
+    for o in ORIGINS:
+        add(o, b"2018-99-99\n asdf\n"); add(o, b"2020-01-01\n    1h\n")
+    for d in docs(rng, 400 if quick else 25000, max_records=3, max_entries=4):
+        o = rng.choice(ORIGINS) if rng.random() < 0.7 else bytes(rng.randrange(256) for _ in range(rng.choice([1, 2, 3, 5, 9])))
+        f = specgen.inject_fault(d, rng)
+        if f is not None and rng.random() < 0.75:
+            add(o, f[0])
+        elif not any(abs(e.minutes()) > 10**16 for r in d.records for e in r.entries):
+            add(o, d.render(), asts=[d])
+    for _ in range(100 if quick else 8000):
+        add(rng.choice(ORIGINS), special_doc(rng))
+    return out
+
 # ------------------------------------------------------------------ known finding K1 (totals beyond int64)
 
 ENTRY_DUR = re.compile(rb"^(?:    |   |  |\t)([-+]?)(?:(\d+)h)?(?:(\d+)m)?(?:[ \t].*)?$")
@@ -420,14 +461,14 @@ def k1_json_total_overflow(req, out):
 def gen_terminal(tier, rng):
     quick = tier == "quick"
     out = []
-    for d in docs(rng, 500 if quick else 40000, max_records=4, max_entries=5):
+    for d in docs(rng, 400 if quick else 30000, max_records=4, max_entries=5):
         f = specgen.inject_fault(d, rng)
         if f is None: continue
         b = f[0] if rng.random() < 0.8 else mutate(rng, f[0])
         out.append("jsonout-terminal %s %s" % (hx(CWD + rng.choice(NAMES[:4] + NAMES[5:9])), hx(b)))
-    for _ in range(150 if quick else 10000):
+    for _ in range(120 if quick else 8000):
         out.append("jsonout-terminal %s %s" % (hx(CWD + "f.klg"), hx(special_doc(rng))))
-    for b in byte_stream(tier, rng, 150 if quick else 6000, 60 if quick else 3000, 1):
+    for b in byte_stream(tier, rng, 120 if quick else 5000, 50 if quick else 2500, 1):
         if len(b) < 20000:
             out.append("jsonout-terminal %s %s" % (hx(CWD + "f.klg"), hx(b)))
     return out
@@ -475,7 +516,7 @@ def oracle_terminal(req, out):
 def gen_flags(tier, rng):
     quick = tier == "quick"
     out = []
-    for d in docs(rng, 500 if quick else 30000, max_records=6, max_entries=5):
+    for d in docs(rng, 400 if quick else 20000, max_records=6, max_entries=5):
         if not d.records: continue
         if any(abs(e.minutes()) > 10**16 for r in d.records for e in r.entries): continue
         r0 = rng.choice(d.records)
@@ -567,6 +608,10 @@ def suites():
                    "summaries made of quotes / backslashes / control characters / <>& / non-ASCII / U+2028-9 / invalid UTF-8, the arbitrary-byte stream with "
                    "very long lines, and totals beyond int64; model and implementation byte-identical; oracle = Python json.loads + envelope, member order, "
                    "arithmetic relations, notation/minute agreement, data of the specgen AST, error numbers = the parser's own; non-trivial = a document was printed"),
+        Suite("api", gen_api, oracle=oracle_output, nontrivial=nontrivial_output,
+              rule="json.ToJson called directly on the parser's result with the errors' origin set to arbitrary bytes (invalid, truncated, overlong, surrogate "
+                   "UTF-8; control characters) - the command line cannot carry such names, kong re-encodes them; model and implementation byte-identical; "
+                   "oracle as for `output`, with file = the origin with every invalid byte replaced by U+FFFD"),
         Suite("terminal", gen_terminal, oracle=oracle_terminal,
               rule="error text of `klog print FILE` with colours off next to `klog json FILE` on faulted documents and arbitrary bytes; model (PrettifyParsingError + "
                    "Reflower) and implementation byte-identical; oracle = line number, caret offset, caret count and re-joined message of every block equal "
